@@ -904,8 +904,28 @@ func (g *Gen) replaceMergeShardsOpt() (Cmd, bool) {
 
 func (g *Gen) ReplaceMergeShards() Cmd { c, _ := g.replaceMergeShards(); return c }
 
+// singleEngine reports whether all shard groups of the policy belong to one storage engine.
+func singleEngine(r *meta.RetentionPolicyInfo) bool {
+	for i := range r.ShardGroups {
+		if r.ShardGroups[i].EngineType != r.ShardGroups[0].EngineType {
+			return false
+		}
+	}
+	return true
+}
+
+// In Safe mode the merge request names shards of consecutive groups of a policy whose groups
+// all belong to one engine, in time order: ReplaceMergeShards works on slice positions and
+// would otherwise swallow the groups of the other engine that lie in between.
 func (g *Gen) replaceMergeShards() (Cmd, int) {
-	db, rp := g.dbrpWith(func(r *meta.RetentionPolicyInfo) bool { return len(r.ShardGroups) > 1 })
+	db, rp := g.dbrpWith(func(r *meta.RetentionPolicyInfo) bool {
+		return len(r.ShardGroups) > 1 && (!g.Safe || singleEngine(r))
+	})
+	if g.Safe {
+		if r := g.rp(db, rp); r == nil || !singleEngine(r) {
+			return Cmd{}, 0
+		}
+	}
 	var ids []uint64
 	pt := uint32(0)
 	if r := g.rp(db, rp); r != nil && len(r.ShardGroups) > 0 {
@@ -922,7 +942,7 @@ func (g *Gen) replaceMergeShards() (Cmd, int) {
 			}
 		}
 		if g.p(0.1) && len(ids) > 1 {
-			ids[0], ids[len(ids)-1] = ids[len(ids)-1], ids[0] // not incremental
+			ids[0], ids[len(ids)-1] = ids[len(ids)-1], ids[0] // not incremental: refused
 		}
 	}
 	if rp == "" {
